@@ -445,20 +445,25 @@ impl Iterator for QueryState<'_> {
             // this should halt the search for solutions as it
             // does in the Scryer top-level. the exception term is
             // contained in self.machine_st.ball.
-            let h = machine.machine_st.heap.cell_len();
-
-            if let Err(err) = machine
+            // NOTE: the cells of the ball refer to each other relative to the heap top at
+            // the time of the throw; the heap top may have moved since (cells allocated or
+            // given back while unwinding), so the ball has to be relocated, not just appended.
+            let h = match machine
                 .machine_st
-                .heap
-                .append(&machine.machine_st.ball.stub)
+                .ball
+                .copy_and_align_to(&mut machine.machine_st.heap)
             {
-                let resource_error_offset = err.resource_error_offset(&mut machine.machine_st.heap);
-                return Some(Err(Term::from_heapcell(
-                    machine,
-                    machine.machine_st.heap[resource_error_offset],
-                    &mut IndexMap::new(),
-                )));
-            }
+                Ok(h) => h,
+                Err(err) => {
+                    let resource_error_offset =
+                        err.resource_error_offset(&mut machine.machine_st.heap);
+                    return Some(Err(Term::from_heapcell(
+                        machine,
+                        machine.machine_st.heap[resource_error_offset],
+                        &mut IndexMap::new(),
+                    )));
+                }
+            };
 
             let exception_term =
                 Term::from_heapcell(machine, machine.machine_st.heap[h], &mut var_names.clone());
